@@ -2,20 +2,35 @@
 // confighttp's availableDecoders and the default enabled list; client side: configcompression accepts the name
 // and newCompressor builds an encoder.  props/C15/check.py requires the hop harness to have exercised every
 // compression offered by both sides (on OTLP/HTTP), so a newly added algorithm cannot stay untested silently.
-// Line: name|client_ok|server_has_decoder|server_enabled_by_default
+// Line: name|client_ok|server_has_decoder|server_enabled_by_default, and one line timeouts|..|..|..|.. (see below)
 package confighttp
 
 import (
+	"context"
 	"fmt"
+	"net/http"
 	"sort"
 	"testing"
+	"time"
 
+	"go.opentelemetry.io/collector/component/componenttest"
 	"go.opentelemetry.io/collector/config/configcompression"
 )
 
 func TestVerifC15CompSets(t *testing.T) {
 	out := vOpen()
 	defer out.Close()
+	// which configured timeout does ServerConfig.ToServer put into which field of the http.Server?  Four distinct
+	// values in, the four fields out (in seconds): line timeouts|ReadTimeout|ReadHeaderTimeout|WriteTimeout|IdleTimeout
+	sc := &ServerConfig{Endpoint: "127.0.0.1:0", ReadTimeout: 1 * time.Second, ReadHeaderTimeout: 2 * time.Second,
+		WriteTimeout: 3 * time.Second, IdleTimeout: 4 * time.Second}
+	srv, err := sc.ToServer(context.Background(), componenttest.NewNopHost(), componenttest.NewNopTelemetrySettings(),
+		http.HandlerFunc(func(http.ResponseWriter, *http.Request) {}))
+	if err != nil {
+		t.Fatal(err)
+	}
+	out.Case(true, fmt.Sprintf("timeouts|%d|%d|%d|%d", int64(srv.ReadTimeout/time.Second), int64(srv.ReadHeaderTimeout/time.Second),
+		int64(srv.WriteTimeout/time.Second), int64(srv.IdleTimeout/time.Second)))
 	names := map[string]bool{}
 	for k := range availableDecoders {
 		names[k] = true
